@@ -148,11 +148,9 @@ def render_params(trait, p, level, sp):
         long = '(' + _sp_name(v, sp) + ')'
         short = sp.pick('nameid_short', [f' = {v}', f' = "{v}"'])
         return sp.pick('nameshort', [long, short])
-    if trait == 'Default' and level == 'field' and set(p.keys()) <= {'expr', 'lit'}:
+    if trait == 'Default' and level == 'field' and p and set(p.keys()) <= {'expr', 'lit'}:
         long = '(' + _sp_expr(p['expr'], sp) + ')'
-        if p.get('lit'):
-            return sp.pick('defshort', [long, f" = {p['expr']}"])
-        return long
+        return sp.pick('defshort', [long, f" = {p['expr']}"])
     for k in p:
         v = p[k]
         if k == 'unsafe':
